@@ -36,6 +36,11 @@ pub struct Case {
 /// Pool of errors pushed by the sequences: standard codes of every class,
 /// custom codes, with and without extended text.
 pub fn error_pool() -> Vec<Error> {
+    static POOL: std::sync::OnceLock<Vec<Error>> = std::sync::OnceLock::new();
+    POOL.get_or_init(build_pool).clone()
+}
+
+fn build_pool() -> Vec<Error> {
     let mut v: Vec<Error> = Vec::new();
     for c in [-100i16, -101, -109, -113, -151, -200, -222, -224, -225, -300, -310, -350, -363, -400, -410, -440, -500, -600, -700, -800, 0] {
         if let Some(e) = ErrorCode::get_error(c) {
@@ -51,6 +56,16 @@ pub fn error_pool() -> Vec<Error> {
     v.push(Error::new(ErrorCode::DataOutOfRange).extended(b"too large"));
     v.push(Error::new(ErrorCode::QueueOverflow).extended(b"not the real overflow"));
     v.push(Error::custom(-350, b"custom overflow lookalike"));
+    // long device-dependent texts (the queue stores whatever it is given, unchanged): around
+    // the 255-character limit that SCPI-99 21.8.1 sets for description + info, and far beyond
+    for (i, n) in [0usize, 1, 100, 200, 230, 239, 240, 241, 254, 255, 256, 257, 300, 1000, 70000].into_iter().enumerate() {
+        let text: &'static [u8] = Box::leak((0..n).map(|k| b' ' + ((k * 7 + i) % 94) as u8).collect::<Vec<u8>>().into_boxed_slice());
+        v.push(match i % 3 {
+            0 => Error::new(ErrorCode::DeviceSpecificError).extended(text),
+            1 => Error::custom(100 + i as i16, b"Custom").extended(text),
+            _ => Error::custom(-(200 + i as i16), text),
+        });
+    }
     v
 }
 
